@@ -457,3 +457,135 @@ def biv_ppf_containers(ctx):
             ctx.violation(f'search:percent_point-depends-on-container:{fam}', why,
                           {'family': fam, 'theta': th, 'repro': ('from vf.extra_oracles2 import biv_ppf_containers_replay\n'
                                                                  f'why = biv_ppf_containers_replay({fam!r}, {th!r})\nprint(why)\nassert why is None\n')})
+
+
+# ======================================================================================================================
+# C20: containers handed to a CONSTRUCTOR (per-column distribution dict, candidate list) are caller-owned too: no later call
+# (fit with a failing column, sample, a second model built from them) may change them
+# ======================================================================================================================
+def ctor_args_replay(kind):
+    import pandas as pd
+    from copulas.multivariate import GaussianMultivariate
+    from copulas.univariate import GammaUnivariate, GaussianKDE, GaussianUnivariate, UniformUnivariate, Univariate
+
+    class PositiveGamma(GammaUnivariate):
+        def _fit(self, X):
+            if np.min(X) <= 0:
+                raise ValueError('PositiveGamma needs positive data')
+            super()._fit(X)
+    rs = np.random.RandomState(31)
+    good = pd.DataFrame({'a': rs.gamma(2.0, 2.0, 60) + 0.5, 'b': rs.normal(size=60), 'c': rs.uniform(size=60)})
+    bad = good.copy()
+    bad['a'] = bad['a'] - 5.0            # negative values: PositiveGamma refuses, the column falls back to a Gaussian
+    if kind == 'gm-dict-failing-column':
+        inst = GaussianKDE()
+        spec = {'a': PositiveGamma, 'b': inst, 'c': 'copulas.univariate.uniform.UniformUnivariate'}
+        snap = dict(spec)
+        with np.errstate(all='ignore'):
+            A = GaussianMultivariate(distribution=spec, random_state=1)
+            A.fit(bad)
+            A.sample(3)
+            if list(spec) != list(snap) or any(spec[k] is not snap[k] for k in snap):
+                return (f'the per-column distribution dict given to GaussianMultivariate(...) was modified by fit on a table whose column a cannot be '
+                        f'fitted by the configured class: {dict((k, getattr(v, "__name__", v)) for k, v in spec.items())}')
+            if getattr(inst, 'fitted', False):
+                return 'the prototype instance inside the caller\'s distribution dict was fitted'
+            B = GaussianMultivariate(distribution=spec, random_state=1)
+            B.fit(good)
+            ta = type(B.univariates[0]).__name__
+        if ta != 'PositiveGamma':
+            return (f'after model A fell back to a Gaussian for column a, model B built from the SAME configuration models column a with {ta} '
+                    f'although the configured class fits model B\'s data')
+        return None
+    if kind == 'univariate-candidates-list':
+        cands = [GaussianUnivariate, UniformUnivariate, GaussianKDE(bw_method=0.5)]
+        snap = list(cands)
+        with np.errstate(all='ignore'):
+            u = Univariate(candidates=cands, random_state=2)
+            u.fit(good['a'].to_numpy())
+            u.sample(2)
+            Univariate(candidates=cands).fit(good['b'].to_numpy())
+        if len(cands) != len(snap) or any(x is not y for x, y in zip(cands, snap)) or getattr(cands[2], 'fitted', False):
+            return f'the candidate list given to Univariate(...) was modified: {cands}'
+        return None
+    if kind == 'conditions-dict-and-series':
+        with np.errstate(all='ignore'):
+            g = GaussianMultivariate(distribution=GaussianUnivariate, random_state=4)
+            g.fit(good)
+            cd = {'c': 0.3, 'a': 2.0}
+            cs = pd.Series({'b': 0.1})
+            snap_d, snap_s = dict(cd), cs.copy()
+            g.sample(3, conditions=cd)
+            g.sample(3, conditions=cs)
+        if cd != snap_d or list(cd) != list(snap_d) or not cs.equals(snap_s):
+            return f'sample(conditions=...) modified the caller\'s conditions: {cd}, {cs.to_dict()}'
+        return None
+    raise ValueError(kind)
+
+
+def ctor_args(ctx):
+    for kind in ('gm-dict-failing-column', 'univariate-candidates-list', 'conditions-dict-and-series'):
+        ctx.case(('ctor-args', kind), {'history': kind})
+        try:
+            why = ctor_args_replay(kind)
+        except Exception as ex:
+            why = f'oracle raised {type(ex).__name__}: {str(ex)[:160]}'
+        ctx.obligation(f'oracle:caller-owned-configuration:{kind}', why is None, 'correspondence', why or '')
+        if why:
+            ctx.violation(f'mutation:constructor-argument:{kind}', why,
+                          {'kind': kind, 'repro': ('from vf.extra_oracles2 import ctor_args_replay\n'
+                                                   f'why = ctor_args_replay({kind!r})\nprint(why)\nassert why is None\n')})
+
+
+# ======================================================================================================================
+# C20: the plot helpers on frames whose column labels are not strings (pd.DataFrame(ndarray): 0, 1, 2): frames unchanged, rows shown
+# ======================================================================================================================
+def viz_labels_replay(fn, labels):
+    import pandas as pd
+    from copulas import visualization as V
+    rs = np.random.RandomState(8)
+    k = 3 if fn.endswith('3d') else 2
+    cols = {'int': list(range(k)), 'mixed': [0, 'b', 2.5][:k], 'tuple': [('x', 1), ('x', 2), ('y', 1)][:k], 'str': ['p', 'q', 'r'][:k]}[labels]
+    real = pd.DataFrame(rs.normal(size=(7, k)), columns=cols)
+    synth = pd.DataFrame(rs.normal(size=(5, k)) + 10.0, columns=cols)
+
+    def snap(d):
+        return (list(d.columns), [type(c).__name__ for c in d.columns], d.to_numpy().tolist(), [str(t) for t in d.dtypes], list(d.index))
+    before = (snap(real), snap(synth))
+    try:
+        fig = getattr(V, fn)(real, synth) if fn.startswith('compare') else getattr(V, fn)(real)
+    except Exception as ex:
+        fig = ex
+    after = (snap(real), snap(synth))
+    if after != before:
+        which = 'real' if after[0] != before[0] else 'synth'
+        return (f'visualization.{fn} modified the caller\'s {which} frame with {labels} column labels: columns '
+                f'{before[0][0] if which == "real" else before[1][0]} -> {after[0][0] if which == "real" else after[1][0]}')
+    if isinstance(fig, Exception):
+        return None if labels != 'str' else f'visualization.{fn} raised {type(fig).__name__}: {str(fig)[:100]}'
+    pts = {}
+    for t in fig.data:
+        xs, ys = np.asarray(t.x, dtype=float), np.asarray(t.y, dtype=float)
+        zs = np.asarray(t.z, dtype=float) if getattr(t, 'z', None) is not None else None
+        pts[t.name] = sorted(tuple(float(v) for v in ((xs[i], ys[i]) + ((zs[i],) if zs is not None else ()))) for i in range(len(xs)))
+    want = {'Real': sorted(tuple(float(v) for v in r) for r in real.to_numpy().tolist())}
+    if fn.startswith('compare'):
+        want['Synthetic'] = sorted(tuple(float(v) for v in r) for r in synth.to_numpy().tolist())
+    if pts != want:
+        return f'visualization.{fn} on frames with {labels} column labels does not show exactly the given rows under the Real/Synthetic labels: traces {sorted(pts)} sizes {[len(v) for v in pts.values()]}'
+    return None
+
+
+def viz_labels(ctx):
+    for fn in ('scatter_2d', 'scatter_3d', 'compare_2d', 'compare_3d'):
+        for labels in ('str', 'int', 'mixed', 'tuple'):
+            ctx.case(('viz-labels', fn, labels), {'function': fn, 'column labels': labels})
+            try:
+                why = viz_labels_replay(fn, labels)
+            except Exception as ex:
+                why = f'oracle raised {type(ex).__name__}: {str(ex)[:160]}'
+            ctx.obligation(f'oracle:viz-labels:{fn}:{labels}', why is None, 'correspondence', why or '')
+            if why:
+                ctx.violation(f'mutation:visualization.{fn}:frame-with-{labels}-labels', why,
+                              {'function': fn, 'labels': labels, 'repro': ('from vf.extra_oracles2 import viz_labels_replay\n'
+                                                                           f'why = viz_labels_replay({fn!r}, {labels!r})\nprint(why)\nassert why is None\n')})
